@@ -28,6 +28,12 @@ def check(run):
     isolang(run, p)
     precedence(run, p)
     declared(run, p)
+    from .common import gotcha_rule
+    n = gotcha_rule(run, 'C16-ACCUM', p, ['tdda.serial.pandasio', 'tdda.serial.csvw', 'tdda.serial.reader', 'tdda.serial.base'],
+                    'what several columns contribute to one read_csv argument is accumulated, not overwritten or dropped: no '
+                    '`d.setdefault(k, [v])` used as a statement (keeps only the first column\'s value), no list extended by a '
+                    'single string, no ("text") constant used with `in`')
+    run.floor('C16-ACCUM', n, 4)
     from .common import nocache_rule
     nocache_rule(run, 'C16-NOCACHE', p, ['tdda.serial.reader', 'tdda.serial.csvw', 'tdda.serial.pandasio', 'tdda.serial.base'],
                  'metadata is read from the file each time it is needed: no memoising decorator and no class-level container used as a cache '
